@@ -27,9 +27,20 @@ open FxVerif.Gen.C17 FxVerif.Model.C17 List
 /-- obligation over the regenerated inventory -/
 theorem inventory_covered : sites.all covered = true := by decide
 
-/-- no wall-clock, goroutine, select or random-number use on a state-affecting path -/
+/-- no wall-clock, goroutine, select, random-number or process-specific-value use on a state-affecting path: every site
+of the regenerated inventory is a map range or a float operation, except the individually reviewed clock wrappers /
+process values that the translator now also reports (metrics of the gov end blocker, state export, default node home)
+— each of which `inventory_covered` admits only in its own class -/
 theorem no_clock_goroutine_random :
-    sites.all (fun s => s.kind == "mapRange" || s.kind == "float") = true := by decide
+    sites.all (fun s => s.kind == "mapRange" || s.kind == "float" ||
+      ((s.kind == "timeNow" || s.kind == "procValue") &&
+        (classify s == some .telemetry || classify s == some .exportOnly || classify s == some .nodeConfig))) = true := by decide
+
+/-- the statement as it was before wrappers and process values were inventoried: no direct `time.Now/Since/Until`, no
+goroutine, `select` or random-number call at all -/
+theorem no_direct_clock_goroutine_random :
+    sites.all (fun s => s.kind != "go" && s.kind != "select" && s.kind != "rand" &&
+      !(s.kind == "timeNow" && (s.expr == "time.Now" || s.expr == "time.Since" || s.expr == "time.Until"))) = true := by decide
 
 /-- PowerDiff: the sum of absolute differences does not depend on the map iteration order -/
 theorem absSum_perm {l₁ l₂ : List Int} (h : l₁.Perm l₂) : absSum l₁ = absSum l₂ := by
